@@ -55,3 +55,153 @@ Definition chk_chg_layout (data : bytes) : bool :=
   | Ok c => layout_ok (map fst (cb_cols c)) && normal_sorted (map fst (cb_cols c))
   | _ => false
   end.
+
+(* ================================================================ the op columns (Store/ChangeOps.v) *)
+From AM Require Import Codec.ColEnc Store.ChangeOps.
+
+(* an operation as [Change::decode] reports it ([ExpandedChange::from(&Change)], legacy::Op): actors are actor
+   ids (bytes), the action is [legacy::OpType::from_parts (action, value, expand, mark_name)] *)
+Definition bopid := (N * bytes)%type.
+Inductive bkey := BK_Prop (s : bytes) | BK_Head | BK_Elem (e : bopid).
+Inductive bobj := BO_Root | BO_Id (e : bopid).
+Inductive lact :=
+| LA_Make (action : N)                      (* 0 map, 2 list, 4 text, 6 table *)
+| LA_Put (v : sval)
+| LA_Del
+| LA_Inc (z : Z)
+| LA_MarkBegin (name : bytes) (v : sval) (expand : bool)
+| LA_MarkEnd (expand : bool).
+Record lop := mkLop { lo_obj : bobj; lo_key : bkey; lo_insert : bool; lo_act : lact; lo_pred : list bopid }.
+
+(* [actors.get(&idx).unwrap()] *)
+Definition actor_of (tbl : list bytes) (o : opid) : res bopid :=
+  match nth_error tbl (N.to_nat (snd o)) with Some a => Ok (fst o, a) | None => Panic end.
+
+Fixpoint actors_of (tbl : list bytes) (l : list opid) : res (list bopid) :=
+  match l with
+  | [] => Ok []
+  | o :: t => let* b := actor_of tbl o in let* bt := actors_of tbl t in Ok (b :: bt)
+  end.
+
+(* [legacy::OpType::from_parts]; the action was validated by the reader *)
+Definition legacy_act (o : chop) : res lact :=
+  let a := co_action o in
+  if (a =? 0) || (a =? 2) || (a =? 4) || (a =? 6) then Ok (LA_Make a)
+  else if a =? 1 then Ok (LA_Put (co_val o))
+  else if a =? 3 then Ok LA_Del
+  else if a =? 5 then
+    match co_val o with
+    | SV_Int z => Ok (LA_Inc z)
+    | SV_Uint n => Ok (LA_Inc (if n <? pow63 then Z.of_N n else (Z.of_N n - Z.of_N pow64)%Z))   (* i as i64 *)
+    | _ => Panic
+    end
+  else if a =? 7 then
+    match co_mark o with
+    | Some name => Ok (LA_MarkBegin name (co_val o) (co_expand o))
+    | None => Ok (LA_MarkEnd (co_expand o))
+    end
+  else Panic.
+
+Definition to_legacy (tbl : list bytes) (o : chop) : res lop :=
+  let* act := legacy_act o in
+  let* key := match co_key o with
+              | K_Prop s => Ok (BK_Prop s)
+              | K_Elem e => if is_zero_id e then Ok BK_Head else let* b := actor_of tbl e in Ok (BK_Elem b)
+              end in
+  let* obj := if is_zero_id (co_obj o) then Ok BO_Root else let* b := actor_of tbl (co_obj o) in Ok (BO_Id b) in
+  let* pred := actors_of tbl (co_pred o) in
+  Ok (mkLop obj key (co_insert o) act pred).
+
+Fixpoint to_legacy_all (tbl : list bytes) (ops : list chop) : res (list lop) :=
+  match ops with
+  | [] => Ok []
+  | o :: t =>
+    match to_legacy tbl o, to_legacy_all tbl t with
+    | Ok l, Ok lt => Ok (l :: lt)
+    | Panic, _ | _, Panic => Panic
+    | _, _ => Err
+    end
+  end.
+
+Definition sval_eqb (a b : sval) : bool :=
+  match a, b with
+  | SV_Null, SV_Null => true
+  | SV_Bool x, SV_Bool y => Bool.eqb x y
+  | SV_Uint x, SV_Uint y => x =? y
+  | SV_Int x, SV_Int y | SV_Counter x, SV_Counter y | SV_Timestamp x, SV_Timestamp y => (x =? y)%Z
+  | SV_F64 x, SV_F64 y | SV_Str x, SV_Str y | SV_Bytes x, SV_Bytes y => bytes_eqb x y
+  | SV_Unknown c x, SV_Unknown d y => (c =? d) && bytes_eqb x y
+  | _, _ => false
+  end.
+Definition bopid_eqb (a b : bopid) : bool := (fst a =? fst b) && bytes_eqb (snd a) (snd b).
+Definition bkey_eqb (a b : bkey) : bool :=
+  match a, b with
+  | BK_Prop x, BK_Prop y => bytes_eqb x y
+  | BK_Head, BK_Head => true
+  | BK_Elem x, BK_Elem y => bopid_eqb x y
+  | _, _ => false
+  end.
+Definition bobj_eqb (a b : bobj) : bool :=
+  match a, b with BO_Root, BO_Root => true | BO_Id x, BO_Id y => bopid_eqb x y | _, _ => false end.
+Definition lact_eqb (a b : lact) : bool :=
+  match a, b with
+  | LA_Make x, LA_Make y => x =? y
+  | LA_Put x, LA_Put y => sval_eqb x y
+  | LA_Del, LA_Del => true
+  | LA_Inc x, LA_Inc y => (x =? y)%Z
+  | LA_MarkBegin n x e, LA_MarkBegin m y f => bytes_eqb n m && sval_eqb x y && Bool.eqb e f
+  | LA_MarkEnd e, LA_MarkEnd f => Bool.eqb e f
+  | _, _ => false
+  end.
+
+(* [remove_one x l]: l without one occurrence of x *)
+Fixpoint remove_one (x : bopid) (l : list bopid) : option (list bopid) :=
+  match l with
+  | [] => None
+  | y :: t => if bopid_eqb x y then Some t
+              else match remove_one x t with Some t' => Some (y :: t') | None => None end
+  end.
+Fixpoint perm_eqb (a b : list bopid) : bool :=
+  match a with
+  | [] => match b with [] => true | _ => false end
+  | x :: t => match remove_one x b with Some b' => perm_eqb t b' | None => false end
+  end.
+
+(* [exact]: the predecessors in the stored order; otherwise as a multiset ([decode] sorts them) *)
+Definition lop_eqb (exact : bool) (a b : lop) : bool :=
+  bobj_eqb (lo_obj a) (lo_obj b) && bkey_eqb (lo_key a) (lo_key b) && Bool.eqb (lo_insert a) (lo_insert b)
+  && lact_eqb (lo_act a) (lo_act b)
+  && (if exact then list_eqb bopid_eqb (lo_pred a) (lo_pred b) else perm_eqb (lo_pred a) (lo_pred b)).
+
+Definition cols_eqb (a b : list (N * bytes)) : bool :=
+  list_eqb (fun x y : N * bytes => (fst x =? fst y) && bytes_eqb (snd x) (snd y)) a b.
+
+(* a change the implementation WROTE: the model decodes its op columns to exactly the operations [Change::decode]
+   reports (predecessors in the stored order), the decoded ops are well-formed, and [encode_ops] of them is the
+   column list of the chunk, byte for byte *)
+Definition chk_chg_ops (data : bytes) (lops : list lop) : bool :=
+  match parse_change_full data with
+  | Ok (c, ops) =>
+      match to_legacy_all (cb_actor c :: cb_others c) ops with
+      | Ok l => list_eqb (lop_eqb true) l lops
+      | _ => false
+      end
+      && cols_eqb (encode_ops ops) (split_cols (cb_cols c) (cb_data c))
+      && wf_chopsb ops
+  | _ => false
+  end.
+
+(* mutated chunk data.  st = what the implementation did:
+     0 [Change::from_bytes] accepted and [decode] gave [lops];  1 accepted, [decode] panicked;
+     2 / 4 rejected (container / elsewhere);  3 [from_bytes] panicked *)
+Definition chk_chg_ops_mut (data : bytes) (st : N) (lops : list lop) : bool :=
+  match parse_change_full data with
+  | Ok (c, ops) =>
+      match to_legacy_all (cb_actor c :: cb_others c) ops with
+      | Ok l => (st =? 0) && list_eqb (lop_eqb false) l lops
+      | Panic => st =? 1
+      | Err => false
+      end
+  | Err => (st =? 2) || (st =? 4)
+  | Panic => st =? 3
+  end.
